@@ -4,7 +4,30 @@
  * specification flavor (grace periods end as early as the specification allows). */
 #include "vrt.h"
 #define URCU_API_MAP
+#if defined(FLAVOR_SPEC)
 #include <urcu/urcu-spec.h>
+#define RDL()		vrt_spec_read_lock()
+#define RDU()		vrt_spec_read_unlock()
+#define SYNC()		vrt_spec_synchronize()
+#define REG()		do { } while (0)
+#define UNREG()		do { } while (0)
+#define THE_FLAVOR	(&urcu_spec_flavor)
+#else
+/* the same scenarios with the table bound to a real flavor (shallower budgets: a real grace period is ~50 steps) */
+#if defined(FLAVOR_MEMB)
+#include <urcu/urcu-memb.h>
+#elif defined(FLAVOR_MB)
+#include <urcu/urcu-mb.h>
+#elif defined(FLAVOR_BP)
+#include <urcu/urcu-bp.h>
+#endif
+#define RDL()		rcu_read_lock()
+#define RDU()		rcu_read_unlock()
+#define SYNC()		synchronize_rcu()
+#define REG()		rcu_register_thread()
+#define UNREG()		rcu_unregister_thread()
+#define THE_FLAVOR	(&rcu_flavor)
+#endif
 #include <urcu/rculfhash.h>
 #include "rculfhash-internal.h"
 /* layout mirror of the private split-counter type of rculfhash.c (only used for the canonical state key) */
@@ -135,7 +158,7 @@ static int table_new(void)
 		mx = 1UL << (MAX_TABLE_ORDER - 1);
 	expect_null = !pow2(cfg_min) || !pow2(cfg_init) || !(mx && !(mx & (mx - 1)));
 	ht = _cds_lfht_new_with_alloc((unsigned long)cfg_init, (unsigned long)cfg_min, (unsigned long)cfg_max, cfg_flags, mm,
-				      &urcu_spec_flavor, cfg_custom ? &rec_alloc : NULL, NULL);
+				      THE_FLAVOR, cfg_custom ? &rec_alloc : NULL, NULL);
 	vrt_outcome((unsigned long)(ht != NULL));
 	if (expect_null) {
 		VRT_CHECK(!ht, "cds_lfht_new accepted invalid parameters init=%d min=%d max=%d", cfg_init, cfg_min, cfg_max);
@@ -206,7 +229,7 @@ static void model_del(int id)
 static void retire(int id)
 {
 	/* the owner may free the node one grace period after the removal returned */
-	vrt_spec_synchronize();
+	SYNC();
 	free(nodes[id]);
 }
 
@@ -231,7 +254,7 @@ static void seq_verify(const char *after)
 	long ab, aa;
 	unsigned long cnt;
 
-	vrt_spec_read_lock();
+	RDL();
 	/* full traversal: every stored node exactly once, nothing else */
 	norder = 0;
 	for (cds_lfht_first(ht, &it); cds_lfht_iter_get_node(&it); cds_lfht_next(ht, &it)) {
@@ -266,7 +289,7 @@ static void seq_verify(const char *after)
 			  c, k, model_count_key(k));
 	}
 	cds_lfht_count_nodes(ht, &ab, &cnt, &aa);
-	vrt_spec_read_unlock();
+	RDU();
 	VRT_CHECK(cnt == (unsigned long)nmodel, "after %s: count_nodes says %lu, %d are stored", after, cnt, nmodel);
 	if (cfg_flags & CDS_LFHT_ACCOUNTING)
 		VRT_CHECK(ab == nmodel && aa == nmodel, "after %s: split-counter totals %ld/%ld, %d nodes stored", after, ab, aa,
@@ -336,6 +359,7 @@ static const unsigned long rs_sizes_big[] = { 512, 256, 1024, 128, 0, 2048, 300,
 
 static void run_seq(void)
 {
+	REG();
 	int len = (int)vrt_param("len", 3), step, nrs = (int)vrt_param("nresize", 9);
 	int nops, destroyed = 0, allowed[64], nallowed = 0, i, alpha_seq = (int)vrt_param("alpha_seq", 0);
 	const unsigned long *rs_sizes = vrt_param("big", 0) ? rs_sizes_big : rs_sizes_small;
@@ -367,16 +391,16 @@ static void run_seq(void)
 			switch (kind) {
 			case S_ADD:
 				id = next_id++;
-				vrt_spec_read_lock();
+				RDL();
 				cds_lfht_add(ht, hash_of(key), &mknode(id, key)->n);
-				vrt_spec_read_unlock();
+				RDU();
 				model_add(id);
 				break;
 			case S_ADDU:
 				id = next_id++;
-				vrt_spec_read_lock();
+				RDL();
 				ret = cds_lfht_add_unique(ht, hash_of(key), match, &key, &mknode(id, key)->n);
-				vrt_spec_read_unlock();
+				RDU();
 				r = id_of(ret);
 				if (model_count_key(key)) {
 					VRT_CHECK(r != id && model_has(r) && node_key[r] == key,
@@ -389,9 +413,9 @@ static void run_seq(void)
 				break;
 			case S_ADDR:
 				id = next_id++;
-				vrt_spec_read_lock();
+				RDL();
 				ret = cds_lfht_add_replace(ht, hash_of(key), match, &key, &mknode(id, key)->n);
-				vrt_spec_read_unlock();
+				RDU();
 				r = id_of(ret);
 				if (model_count_key(key)) {
 					VRT_CHECK(r && r != id && model_has(r) && node_key[r] == key,
@@ -407,13 +431,13 @@ static void run_seq(void)
 				int old, newid = next_id++, badkey = (key + 1) % 4;
 				struct hnode *nn = mknode(newid, kind == S_REPLBAD ? badkey : key);
 
-				vrt_spec_read_lock();
+				RDL();
 				old = find_nth(key, kind == S_REPL2 ? 2 : 1, &it);
 				if (kind == S_REPLBAD)	/* new node's key/hash does not match the old node's */
 					r = cds_lfht_replace(ht, &it, hash_of(badkey), match, &badkey, &nn->n);
 				else
 					r = cds_lfht_replace(ht, &it, hash_of(key), match, &key, &nn->n);
-				vrt_spec_read_unlock();
+				RDU();
 				VRT_CHECK((old != 0) == (model_count_key(key) >= (kind == S_REPL2 ? 2 : 1)),
 					  "%s: duplicate walk found node %d, model has %d with the key", what, old, model_count_key(key));
 				if (!old) {
@@ -427,9 +451,9 @@ static void run_seq(void)
 					model_del(old);
 					model_add(newid);
 					/* the stale iterator must not succeed a second time; a second del must fail */
-					vrt_spec_read_lock();
+					RDL();
 					VRT_CHECK(cds_lfht_del(ht, &nodes[old]->n) < 0, "%s: del of replaced node %d succeeded", what, old);
-					vrt_spec_read_unlock();
+					RDU();
 					retire(old);
 				}
 				break;
@@ -437,13 +461,13 @@ static void run_seq(void)
 			case S_DEL1: case S_DEL2: {
 				int victim, nth = kind == S_DEL2 ? 2 : 1;
 
-				vrt_spec_read_lock();
+				RDL();
 				victim = find_nth(key, nth, &it);
 				VRT_CHECK((victim != 0) == (model_count_key(key) >= nth), "%s: duplicate walk found node %d, model has %d",
 					  what, victim, model_count_key(key));
 				r = cds_lfht_del(ht, cds_lfht_iter_get_node(&it));
 				if (!victim) {
-					vrt_spec_read_unlock();
+					RDU();
 					VRT_CHECK(r < 0, "%s: del(NULL) returned %d", what, r);
 					break;
 				}
@@ -458,7 +482,7 @@ static void run_seq(void)
 						  "%s: replace through a stale iterator of deleted node %d succeeded", what, victim);
 					free(nn);
 				}
-				vrt_spec_read_unlock();
+				RDU();
 				model_del(victim);
 				retire(victim);
 				break;
@@ -525,7 +549,7 @@ static void reclaim_node(int id)
 {
 	if (!reclaim)
 		return;
-	vrt_spec_synchronize();
+	SYNC();
 	free(nodes[id]);
 }
 
@@ -536,7 +560,7 @@ static void op_walk(int key)	/* key < 0: full traversal */
 	int h, n = 0, dupkey = 0;
 	unsigned keys_seen = 0;
 
-	vrt_spec_read_lock();
+	RDL();
 	h = vrt_h_call(OP_WALK, key, 0);
 	if (key >= 0)
 		cds_lfht_lookup(ht, hash_of(key), match, &key, &it);
@@ -559,7 +583,7 @@ static void op_walk(int key)	/* key < 0: full traversal */
 			cds_lfht_next(ht, &it);
 	}
 	vrt_h_ret2(h, (long)mask, dupkey);
-	vrt_spec_read_unlock();
+	RDU();
 	if (unique_mode)
 		VRT_CHECK(!dupkey, "a %s returned two nodes with the same key although the key is only inserted uniquely (nodes %#lx)",
 			  key >= 0 ? "duplicate walk" : "full traversal", mask);
@@ -576,50 +600,50 @@ static void run_op(int tid, int slot, int b)
 	switch (kind) {
 	case K_ADD:
 		mknode(id, key);
-		vrt_spec_read_lock();
+		RDL();
 		h = vrt_h_call(OP_ADD, id, key);
 		cds_lfht_add(ht, hash_of(key), &nodes[id]->n);
 		vrt_h_ret(h, 0);
-		vrt_spec_read_unlock();
+		RDU();
 		break;
 	case K_ADDU:
 		mknode(id, key);
-		vrt_spec_read_lock();
+		RDL();
 		h = vrt_h_call(OP_ADDU, id, key);
 		ret = cds_lfht_add_unique(ht, hash_of(key), match, &key, &nodes[id]->n);
 		if (ret != &nodes[id]->n)
 			vrt_witness(W_ADDU_LOST);
 		vrt_h_ret(h, id_of(ret));
-		vrt_spec_read_unlock();
+		RDU();
 		break;
 	case K_ADDR:
 		mknode(id, key);
-		vrt_spec_read_lock();
+		RDL();
 		h = vrt_h_call(OP_ADDR, id, key);
 		ret = cds_lfht_add_replace(ht, hash_of(key), match, &key, &nodes[id]->n);
 		old = id_of(ret);
 		vrt_h_ret(h, old);
-		vrt_spec_read_unlock();
+		RDU();
 		if (old)
 			reclaim_node(old);
 		break;
 	case K_LOOKUP:
-		vrt_spec_read_lock();
+		RDL();
 		h = vrt_h_call(OP_LOOKUP, key, 0);
 		cds_lfht_lookup(ht, hash_of(key), match, &key, &it);
 		vrt_h_ret(h, id_of(cds_lfht_iter_get_node(&it)));
-		vrt_spec_read_unlock();
+		RDU();
 		break;
 	case K_DEL: case K_REPL:
 		if (kind == K_REPL)
 			mknode(id, key);
-		vrt_spec_read_lock();
+		RDL();
 		h = vrt_h_call(OP_LOOKUP, key, 0);
 		cds_lfht_lookup(ht, hash_of(key), match, &key, &it);
 		old = id_of(cds_lfht_iter_get_node(&it));
 		vrt_h_ret(h, old);
 		if (!old) {
-			vrt_spec_read_unlock();
+			RDU();
 			break;
 		}
 		if (kind == K_DEL) {
@@ -630,7 +654,7 @@ static void run_op(int tid, int slot, int b)
 			r = cds_lfht_replace(ht, &it, hash_of(key), match, &key, &nodes[id]->n);
 		}
 		vrt_h_ret(h, r ? -1 : 0);
-		vrt_spec_read_unlock();
+		RDU();
 		if (!r)
 			reclaim_node(old);
 		else
@@ -639,18 +663,18 @@ static void run_op(int tid, int slot, int b)
 	case K_DELN:	/* del of a given pre-inserted node (found through a duplicate walk), whoever else removes it */
 		old = arg + 1;
 		key = node_key[old];
-		vrt_spec_read_lock();
+		RDL();
 		cds_lfht_lookup(ht, hash_of(key), match, &key, &it);
 		while (cds_lfht_iter_get_node(&it) && cds_lfht_iter_get_node(&it) != &nodes[old]->n)
 			cds_lfht_next_duplicate(ht, match, &key, &it);
 		if (!cds_lfht_iter_get_node(&it)) {
-			vrt_spec_read_unlock();
+			RDU();
 			break;
 		}
 		h = vrt_h_call(OP_DEL, old, 0);
 		r = cds_lfht_del(ht, &nodes[old]->n);
 		vrt_h_ret(h, r ? -1 : 0);
-		vrt_spec_read_unlock();
+		RDU();
 		if (!r)
 			reclaim_node(old);
 		else
@@ -660,18 +684,18 @@ static void run_op(int tid, int slot, int b)
 		old = arg + 1;
 		key = node_key[old];
 		mknode(id, key);
-		vrt_spec_read_lock();
+		RDL();
 		cds_lfht_lookup(ht, hash_of(key), match, &key, &it);
 		while (cds_lfht_iter_get_node(&it) && cds_lfht_iter_get_node(&it) != &nodes[old]->n)
 			cds_lfht_next_duplicate(ht, match, &key, &it);
 		if (!cds_lfht_iter_get_node(&it)) {
-			vrt_spec_read_unlock();
+			RDU();
 			break;
 		}
 		h = vrt_h_call(OP_REPL, old, id);
 		r = cds_lfht_replace(ht, &it, hash_of(key), match, &key, &nodes[id]->n);
 		vrt_h_ret(h, r ? -1 : 0);
-		vrt_spec_read_unlock();
+		RDU();
 		if (!r)
 			reclaim_node(old);
 		break;
@@ -688,9 +712,9 @@ static void run_op(int tid, int slot, int b)
 		long ab, aa;
 		unsigned long cnt;
 
-		vrt_spec_read_lock();
+		RDL();
 		cds_lfht_count_nodes(ht, &ab, &cnt, &aa);
-		vrt_spec_read_unlock();
+		RDU();
 		VRT_CHECK(cnt < MAXN, "count_nodes returned %lu", cnt);
 		break;
 	}
@@ -709,7 +733,7 @@ static void run_prog(int tid)
 	for (slot = 0; p & 0xff; p >>= 8, slot++)
 		run_op(tid, slot, (int)(p & 0xff));
 }
-static void *prog_thread(void *a) { run_prog((int)(long)a); return NULL; }
+static void *prog_thread(void *a) { REG(); run_prog((int)(long)a); UNREG(); return NULL; }
 
 /* ---- sequential specification for the linearizability search ---- */
 struct hspec { unsigned present; };
@@ -873,6 +897,7 @@ static const unsigned char ALPHA[][16] = {
 
 static void run_conc(void)
 {
+	REG();
 	pthread_t th[4];
 	int nthreads_prog = 0, t, i, alpha = (int)vrt_param("enum", 0);
 	long ik = vrt_param("init_keys", 0);
@@ -886,9 +911,9 @@ static void run_conc(void)
 		int key = (int)((ik >> (4 * i)) & 3);
 
 		mknode(i + 1, key);
-		vrt_spec_read_lock();
+		RDL();
 		cds_lfht_add(ht, hash_of(key), &nodes[i + 1]->n);
-		vrt_spec_read_unlock();
+		RDU();
 		init_mask |= 1u << (i + 1);
 	}
 	ninit = nik;
@@ -954,9 +979,9 @@ static void run_conc(void)
 
 		for (i = 1; i < MAXN; i++)
 			pop += (int)((w->ret >> i) & 1);
-		vrt_spec_read_lock();
+		RDL();
 		cds_lfht_count_nodes(ht, &ab, &cnt, &aa);
-		vrt_spec_read_unlock();
+		RDU();
 		VRT_CHECK(cnt == (unsigned long)pop, "count_nodes says %lu at quiescence, the traversal shows %d nodes", cnt, pop);
 	}
 	if (vrt_param("final_destroy", 0)) {
@@ -964,10 +989,10 @@ static void run_conc(void)
 		struct cds_lfht_iter it;
 		int r;
 
-		vrt_spec_read_lock();
+		RDL();
 		for (cds_lfht_first(ht, &it); cds_lfht_iter_get_node(&it); cds_lfht_next(ht, &it))
 			VRT_CHECK(cds_lfht_del(ht, cds_lfht_iter_get_node(&it)) == 0, "del during final cleanup failed");
-		vrt_spec_read_unlock();
+		RDU();
 		r = cds_lfht_destroy(ht, NULL);
 		VRT_CHECK(r == 0, "destroy of the emptied table returned %d", r);
 		if (cfg_flags & CDS_LFHT_AUTO_RESIZE)
